@@ -303,7 +303,7 @@ fn run_keysets(first: usize, out: &mut CaseOut) {
 
 fn atoms() -> Vec<String> {
     let mut v: Vec<String> = (0u8..0x80).map(|b| (b as char).to_string()).collect();
-    for s in ["\u{e9}", "\u{e5}", "\u{f6}", "\u{df}", "e\u{301}", "A\u{30a}", "o\u{308}", "\u{1100}\u{1161}", "\u{1f37a}", "\u{4e2d}\u{6587}"] {
+    for s in ["\u{e9}", "\u{e5}", "\u{f6}", "\u{df}", "e\u{301}", "A\u{30a}", "o\u{308}", "\u{1100}\u{1161}", "\u{1f37a}", "\u{4e2d}\u{6587}", "\u{fb01}", "\u{b2}", "\u{ff11}", "\u{2122}", "\u{2160}"] {
         v.push(s.to_string());
     }
     v
